@@ -84,6 +84,25 @@ pub fn run(name: &str, a: &Args) -> Option<String> {
             assert!(x.partial_cmp(&y) == Some(o));
             assert!((x < y) == (o == std::cmp::Ordering::Less) && (x > y) == (o == std::cmp::Ordering::Greater));
             assert!((x == y) == (o == std::cmp::Ordering::Equal), "== disagrees with cmp");
+            assert!((x <= y) == (o != std::cmp::Ordering::Greater) && (x >= y) == (o != std::cmp::Ordering::Less), "<= / >= disagree with cmp");
+            assert!(y.cmp(&x) == o.reverse(), "cmp is not antisymmetric");
+            // what the standard library builds on the comparison: sorting, clamp, iterator min / max
+            let mut v = [x, y];
+            v.sort();
+            assert!(
+                v[0].cmp(&v[1]) != std::cmp::Ordering::Greater
+                    && match o {
+                        std::cmp::Ordering::Less => v[0] == x && v[1] == y,
+                        std::cmp::Ordering::Greater => v[0] == y && v[1] == x,
+                        std::cmp::Ordering::Equal => true,
+                    },
+                "sort() disagrees with cmp"
+            );
+            let mut w = [y, x];
+            w.sort_by(|p, q| p.partial_cmp(q).expect("a total order"));
+            assert!(w[0] == v[0] && w[1] == v[1], "sort_by(partial_cmp) disagrees with sort()");
+            assert!(x.clamp(v[0], v[1]) == x && y.clamp(v[0], v[1]) == y, "clamp moves a value inside its bounds");
+            assert!([x, y].iter().min().map(|e| *e == v[0]) == Some(true) && [x, y].iter().max().map(|e| *e == v[1]) == Some(true));
             ord(o)
         }
         "eeq" => {
